@@ -57,6 +57,9 @@ pub enum Topo {
     /// SOCKS5 only: one local socket, ONE association, alternately talking to two targets that
     /// have different host strings (127.0.0.1 / 127.0.0.2) and the same port
     TwoHosts,
+    /// one local client, one UDP remote / one association, payload lengths that change from one datagram to the
+    /// next (len, 3, len+500, 0, len+1): a datagram must not depend on the size of the ones before it
+    Varying,
     /// real-time scenario (thorough tier): one local client sends one datagram per second for
     /// 2 * UDP_PRUNE_TIMEOUT + 3 s while the target stays silent, then the target answers the last
     /// request: the reply must still find its way back (the flow never went idle)
@@ -75,7 +78,7 @@ pub fn prune_timeout() -> Duration {
 
 impl Topo {
     /// the topologies of the ordinary matrix
-    pub const ALL: [Topo; 5] = [Topo::One, Topo::Three, Topo::Shared, Topo::TwoPorts, Topo::TwoHosts];
+    pub const ALL: [Topo; 6] = [Topo::One, Topo::Three, Topo::Shared, Topo::TwoPorts, Topo::TwoHosts, Topo::Varying];
     /// the real-time topologies (about 2 * UDP_PRUNE_TIMEOUT of wall time each, mostly asleep)
     pub const SLOW: [Topo; 2] = [Topo::Steady, Topo::Idle];
     pub fn slow(self) -> bool {
@@ -88,6 +91,7 @@ impl Topo {
             Topo::Shared => "1-socket-2-entries",
             Topo::TwoPorts => "1-association-2-targets-same-host",
             Topo::TwoHosts => "1-association-2-targets-same-port",
+            Topo::Varying => "1-client-varying-payload-lengths",
             Topo::Steady => "steady-sender-silent-target",
             Topo::Idle => "idle-longer-than-prune-timeout",
         }
@@ -115,8 +119,8 @@ impl UdpCase {
             "kind": "udp", "entry": self.kind.name(), "payload_len": self.size, "topology": self.topo.name(),
             "exchanges_per_leg": self.exchanges(),
             "udp_prune_timeout_s": prune_timeout().as_secs(),
-            "payload_rule": "request(len, leg, seq): len 1 -> [0x40|leg<<4|seq]; len>=2 -> [0xC0|leg, seq, xorshift64* stream]; reply = request XOR mask bytewise, mask 0xA5 for target A and 0x5A for target B; exchange seq goes to target seq%2 in the two-target topologies; see c01_udp.rs",
-            "requests_hex": (0..self.legs().len()).map(|l| (0..self.exchanges().min(4)).map(|q| { let r = request(self.size, l, q); vcommon::report::hex(&r[..r.len().min(16)]) }).collect::<Vec<_>>()).collect::<Vec<_>>(),
+            "payload_rule": "payload length of exchange seq = len, except in the varying-lengths topology (len, 3, len+500, 0, len+1); request(len, leg, seq): len 1 -> [0x40|leg<<4|seq]; len>=2 -> [0xC0|leg, seq, xorshift64* stream]; reply = request XOR mask bytewise, mask 0xA5 for target A and 0x5A for target B; exchange seq goes to target seq%2 in the two-target topologies; see c01_udp.rs",
+            "requests_hex": (0..self.legs().len()).map(|l| (0..self.exchanges().min(4)).map(|q| { let r = request(self.len_at(q), l, q); vcommon::report::hex(&r[..r.len().min(16)]) }).collect::<Vec<_>>()).collect::<Vec<_>>(),
         })
     }
     pub fn from_json(v: &Value) -> Option<Self> {
@@ -128,7 +132,7 @@ impl UdpCase {
     /// (local socket index, entry index) per leg
     pub fn legs(&self) -> Vec<(usize, usize)> {
         match (self.topo, self.kind.socks()) {
-            (Topo::One, _) => vec![(0, 0)],
+            (Topo::One | Topo::Varying, _) => vec![(0, 0)],
             (Topo::Three, false) => vec![(0, 0), (1, 0), (2, 0)],
             (Topo::Three, true) => vec![(0, 0), (1, 1), (2, 2)],
             (Topo::Shared, _) => vec![(0, 0), (0, 1)],
@@ -141,12 +145,27 @@ impl UdpCase {
             // one per second at t = 0, 1, ..., 2T+3
             Topo::Steady => 2 * prune_timeout().as_secs() as usize + 4,
             Topo::Idle => 2,
+            Topo::Varying => 5,
             _ => EXCHANGES,
         }
     }
     /// Is this point part of the matrix? (the two-target topologies need a per-datagram destination)
     pub fn valid(&self) -> bool {
         !matches!(self.topo, Topo::TwoPorts | Topo::TwoHosts) || self.kind.socks()
+    }
+    /// payload length of exchange `seq` (constant except in the varying-lengths topology)
+    pub fn len_at(&self, seq: usize) -> usize {
+        if self.topo == Topo::Varying {
+            match seq % 5 {
+                0 => self.size,
+                1 => 3,
+                2 => (self.size + 500).min(65000),
+                3 => 0,
+                _ => (self.size + 1).min(65000),
+            }
+        } else {
+            self.size
+        }
     }
     pub fn n_targets(&self) -> usize {
         if matches!(self.topo, Topo::TwoPorts | Topo::TwoHosts) { 2 } else { 1 }
@@ -297,7 +316,7 @@ async fn run_leg(leg: usize, case: UdpCase, sock: Arc<UdpSocket>, log: Log, note
             // long enough for the client's map entry AND the server's forwarder to be pruned
             tokio::time::sleep(2 * prune_timeout() + Duration::from_secs(1)).await;
         }
-        let req = request(case.size, leg, seq);
+        let req = request(case.len_at(seq), leg, seq);
         let tk = case.target_idx(leg, seq);
         let (target, domain) = &targets[tk];
         let want = reply_of(&req, MASKS[tk]);
@@ -363,7 +382,7 @@ async fn run_steady(case: UdpCase, sock: Arc<UdpSocket>, log: Log, note: Arc<Not
     let nx = case.exchanges();
     let mut res = LegResult { sent: 0, sent_to: [0; 2], retrans: 0, completed: 0, wrong: 0, missing: None };
     let wire_of = |seq: usize| {
-        let req = request(case.size, 0, seq);
+        let req = request(case.len_at(seq), 0, seq);
         if socks { proto::build_udp_request(target.0, target.1.as_deref(), &req) } else { req }
     };
     let started = Instant::now();
@@ -377,7 +396,7 @@ async fn run_steady(case: UdpCase, sock: Arc<UdpSocket>, log: Log, note: Arc<Not
             tokio::time::sleep_until(tokio::time::Instant::from_std(started + Duration::from_secs(seq as u64 + 1))).await;
         }
     }
-    let last = request(case.size, 0, nx - 1);
+    let last = request(case.len_at(nx - 1), 0, nx - 1);
     // the last request has to be at the target (loss tolerance: up to 5 more transmissions, still one per second)
     let mut src = None;
     for attempt in 0..6 {
@@ -669,11 +688,11 @@ pub async fn run_udp(envr: &Env, case: &UdpCase, deadline_s: u64, short_waits: b
         for (src, data) in &log_k {
             stats.requests_at_target += 1;
             sources.insert(*src);
-            let for_here = all_lq.iter().any(|(l, q)| case.target_idx(*l, *q) == k && request(case.size, *l, *q) == *data);
+            let for_here = all_lq.iter().any(|(l, q)| case.target_idx(*l, *q) == k && request(case.len_at(*q), *l, *q) == *data);
             if for_here {
                 continue;
             }
-            if let Some((l, q)) = all_lq.iter().find(|(l, q)| request(case.size, *l, *q) == *data) {
+            if let Some((l, q)) = all_lq.iter().find(|(l, q)| request(case.len_at(*q), *l, *q) == *data) {
                 let to = case.target_idx(*l, *q);
                 push(
                     format!("udp.request.misdirected.{fam}"),
@@ -760,12 +779,12 @@ pub async fn run_udp(envr: &Env, case: &UdpCase, deadline_s: u64, short_waits: b
                 raw
             };
             let issued = leg_results[*leg].as_ref().map_or(0, |r| (r.completed + 1).min(nx));
-            if (0..issued).any(|q| reply_of(&request(case.size, *leg, q), MASKS[case.target_idx(*leg, q)]) == payload) {
+            if (0..issued).any(|q| reply_of(&request(case.len_at(q), *leg, q), MASKS[case.target_idx(*leg, q)]) == payload) {
                 stats.replies_verified += 1;
                 continue;
             }
             if n_targets == 2 && !payload.is_empty() {
-                if let Some(q) = (0..issued).find(|q| reply_of(&request(case.size, *leg, *q), MASKS[1 - case.target_idx(*leg, *q)]) == payload) {
+                if let Some(q) = (0..issued).find(|q| reply_of(&request(case.len_at(*q), *leg, *q), MASKS[1 - case.target_idx(*leg, *q)]) == payload) {
                     let to = case.target_idx(*leg, q);
                     push(
                         format!("udp.reply.from-wrong-target.{fam}"),
@@ -775,7 +794,7 @@ pub async fn run_udp(envr: &Env, case: &UdpCase, deadline_s: u64, short_waits: b
                     continue;
                 }
             }
-            let other = all_lq.iter().copied().find(|(l, q)| reply_of(&request(case.size, *l, *q), MASKS[case.target_idx(*l, *q)]) == payload);
+            let other = all_lq.iter().copied().find(|(l, q)| reply_of(&request(case.len_at(*q), *l, *q), MASKS[case.target_idx(*l, *q)]) == payload);
             match other {
                 Some((l, q)) if l != *leg => push(
                     format!("udp.reply.misdelivered.{fam}"),
@@ -814,7 +833,7 @@ pub async fn run_udp(envr: &Env, case: &UdpCase, deadline_s: u64, short_waits: b
                 push(k.clone(), format!("{d}; datagrams received by the local client from its entry point: {}", recv_per_leg[l]), true);
                 continue;
             }
-            let at_target = tl.iter().filter(|(_, d)| *d == request(case.size, l, r.completed)).count();
+            let at_target = tl.iter().filter(|(_, d)| *d == request(case.len_at(r.completed), l, r.completed)).count();
             push(
                 format!("udp.reply.missing.{fam}.{}", len_class(case.size)),
                 format!(
